@@ -939,13 +939,18 @@ class NonMementoFunctionHashRule(HashRule):
     @staticmethod
     def _function_name(obj: Callable, symbol: str) -> str:
         """
-        Name that identifies the function within the rule key. Anonymous functions all have the
-        same `__qualname__` (`<lambda>`), so they are told apart by the symbol they are bound to.
+        Name that identifies the function within the rule key. Different functions can have the
+        same `__qualname__`: all anonymous functions (`<lambda>`), a function that was defined
+        again while the earlier definition is still bound to another name, functions made by
+        one factory. Only one rule is kept per key, so a function that is reached through a
+        symbol other than its own name is told apart by that symbol.
 
         """
         # noinspection PyUnresolvedReferences
         name = obj.__module__ + ":" + obj.__qualname__
-        if obj.__qualname__.endswith("<lambda>"):
+        if obj.__qualname__.endswith("<lambda>") or symbol.split(".")[-1] != getattr(
+            obj, "__name__", None
+        ):
             name += "@" + symbol
         return name
 
